@@ -180,7 +180,7 @@ var c03Templates = []sim.Template{
 		sc := []*sim.Action{act("admin_lock", b, v, ""), act("login", b, v, "ok"), act("otp_login", b, v, "ok"), act("recover_start", b, v, "")}
 		e := act("recover_end", b, v, "current")
 		e.Cls2 = "fresh"
-		sc = append(sc, e, act("advance", b, -9, "", "d", (s.W.AB.Config.Modules.LockDuration - 1).String()), act("login", b, v, "ok"),
+		sc = append(sc, e, act("advance", b, -9, "", "d", (s.W.AB.Config.Modules.LockDuration-1).String()), act("login", b, v, "ok"),
 			act("advance", b, -9, "", "d", "2ns"), act("login", b, v, "ok"))
 		return sc
 	}},
@@ -258,7 +258,7 @@ var c03Profile = &sim.Profile{
 func init() {
 	register(&Check{
 		ID: "C03", Level: "exploration",
-		Rule: "histories over random load orders of lock/confirm/remember relative to the login modules and of totp/sms: correct and incorrect attempts on every login path, lock by failures / manually / expiry by clock advance placed at LockDuration-1ns and +1ns, lock acquired between the password and the 2FA step, re-started confirmation, unconfirmed accounts created by register/seeding/OAuth2. Oracle: storage is read BEFORE each request (Locked>now on the frozen virtual clock, Confirmed); if an interactive flow ends with uid=U for such an account, or the probe behind lock/confirm middleware runs for such a session user, it is a violation. distinct_nontrivial = distinct (flow, class, locked/unconfirmed account state, session state, mode, load order, outcome) signatures for locked or unconfirmed accounts only.",
+		Rule:  "histories over random load orders of lock/confirm/remember relative to the login modules and of totp/sms: correct and incorrect attempts on every login path, lock by failures / manually / expiry by clock advance placed at LockDuration-1ns and +1ns, lock acquired between the password and the 2FA step, re-started confirmation, unconfirmed accounts created by register/seeding/OAuth2. Oracle: storage is read BEFORE each request (Locked>now on the frozen virtual clock, Confirmed); if an interactive flow ends with uid=U for such an account, or the probe behind lock/confirm middleware runs for such a session user, it is a violation. distinct_nontrivial = distinct (flow, class, locked/unconfirmed account state, session state, mode, load order, outcome) signatures for locked or unconfirmed accounts only.",
 		Units: func(t string) int { return tierN(t, 800, 30000) },
 		Run: func(c *RunCtx, unit int) {
 			r := Rng(c.Seed, "C03", unit)
